@@ -52,11 +52,14 @@ def oneshot(total):
 def run_history(writes, fin, log=None, probes=None, as_type="bytes"):
     """executes one history under a wall-clock backstop (a blocker that never returns is a verdict, not a
     stuck worker)"""
-    from ..steps import WallLimit, StepBudgetExceeded
+    from ..steps import WallLimit, StepBudgetExceeded, hang_seen, too_many_hangs
+    if too_many_hangs():
+        return b"", sum(writes), ("DidNotTerminate", "not executed: three earlier histories did not terminate"), SimFile()
     try:
         with WallLimit(20.0):
             return _run_history(writes, fin, log, probes, as_type)
     except StepBudgetExceeded as ex:
+        hang_seen()
         return b"", sum(writes), ("DidNotTerminate", str(ex)[:120]), SimFile()
 
 
